@@ -248,6 +248,28 @@ impl<'a> Checker<'a> {
             self.opt("first_child", i, guard(|| x.first_child(h)), None);
             self.opt("last_child", i, guard(|| x.last_child(h)), None);
             self.opt("top_element", i, guard(|| Some(x.top_element(h))), self.top_element(i));
+            // edge steps from an attribute / namespace node: it has no children, its siblings are the nodes of its own
+            // kind, and after the last of them comes the end of its element (never the element's other nodes)
+            let par = t.v[i].parent.map(|p| t.v[p].h);
+            let nxt = group.get(pos + 1).map(|g| t.v[*g].h);
+            let prv = if pos > 0 { Some(t.v[group[pos - 1]].h) } else { None };
+            let steps: [(NodeEdge, bool, Option<NodeEdge>); 4] = [
+                (NodeEdge::Start(h), true, Some(NodeEdge::End(h))),
+                (NodeEdge::End(h), true, nxt.map(NodeEdge::Start).or(par.map(NodeEdge::End))),
+                (NodeEdge::End(h), false, Some(NodeEdge::Start(h))),
+                (NodeEdge::Start(h), false, prv.map(NodeEdge::End).or(par.map(NodeEdge::Start))),
+            ];
+            for (e, forward, want) in steps {
+                self.checks += 1;
+                match guard(|| if forward { e.next(x) } else { e.previous(x) }) {
+                    Ok(g) if g == want => {}
+                    other => self.fail(
+                        if forward { "NodeEdge::next" } else { "NodeEdge::previous" },
+                        i,
+                        format!("{} step from {} of an attribute / namespace node gave {:?}, expected {:?}", if forward { "next" } else { "previous" }, kind_edge(&e), other.ok().map(|o| o.map(|q| kind_edge(&q))), want.as_ref().map(kind_edge)),
+                    ),
+                }
+            }
             return;
         }
 
@@ -530,8 +552,31 @@ fn run_tree(ctx: &mut Ctx, a: &ANode, route: build::Route, style: AttrStyle, via
             if let Some(x) = behind {
                 let _ = guard(|| (xot2.child_index(parent, x), xot2.previous_sibling(x), xot2.next_sibling(x)));
             }
-            let done = guard(|| match (hh / 11) % 3 {
+            // childless elements with attribute / namespace nodes, for the calls that fill an empty element
+            let hollow: Vec<Node> = handles
+                .flat()
+                .into_iter()
+                .filter(|n| xot2.is_element(*n) && xot2.first_child(*n).is_none() && (xot2.attributes(*n).len() > 0 || xot2.namespaces(*n).len() > 0))
+                .collect();
+            let done = guard(|| match (hh / 11) % 6 {
                 0 => xot2.element_unwrap(e).map(|_| "element_unwrap"),
+                3 if !hollow.is_empty() => {
+                    let t = hollow[((hh / 67) % hollow.len() as u64) as usize];
+                    if let Some(v) = xot2.text_content_mut(t) {
+                        v.set("tc");
+                    }
+                    Ok("text_content_mut")
+                }
+                4 if !hollow.is_empty() => {
+                    let t = hollow[((hh / 67) % hollow.len() as u64) as usize];
+                    xot2.append_text(t, "at").map(|_| "append_text")
+                }
+                5 => {
+                    let n = xot2.add_name("zzattr");
+                    xot2.set_attribute(e, n, "v");
+                    let c = xot2.new_comment("zz");
+                    xot2.insert_before(e, c).map(|_| "set_attribute+insert_before")
+                }
                 1 => {
                     let c = xot2.new_comment("zz");
                     xot2.prepend(parent, c).map(|_| "prepend")
